@@ -82,6 +82,7 @@ pub struct TRun {
     pub stats: Vec<u64>,
     pub problems: Vec<String>,
     pub log: ChoiceLog,
+    pub failed: usize, // executions of the node function that panicked
 }
 
 pub fn run_tree(tree: &[TNode], k: usize, chooser_of: impl FnOnce(Arc<Mutex<ChoiceLog>>) -> sync::Chooser, spurious: bool) -> TRun {
@@ -89,6 +90,9 @@ pub fn run_tree(tree: &[TNode], k: usize, chooser_of: impl FnOnce(Arc<Mutex<Choi
     let chooser = chooser_of(log.clone());
     let t: Arc<Vec<TNode>> = Arc::new(tree.to_vec());
     let t2 = t.clone();
+    // how often the node function failed (counted independently of the recorded history)
+    let failed = Arc::new(std::sync::atomic::AtomicUsize::new(0));
+    let failed2 = failed.clone();
     let rr = sync::run(chooser, spurious, move || {
         bab_solve(
             move |n: usize| -> NodeResult<usize, usize, u32> {
@@ -96,7 +100,10 @@ pub fn run_tree(tree: &[TNode], k: usize, chooser_of: impl FnOnce(Arc<Mutex<Choi
                     TNode::No => NodeResult::NoSolution,
                     TNode::Inf(cs, s) => NodeResult::Infeasible(cs.clone(), *s),
                     TNode::Feas(s) => NodeResult::Feasible(n, *s),
-                    TNode::Panic => panic!("node solver fails on node {}", n),
+                    TNode::Panic => {
+                        failed2.fetch_add(1, std::sync::atomic::Ordering::SeqCst);
+                        panic!("node solver fails on node {}", n)
+                    }
                 }
             },
             0usize,
@@ -121,7 +128,7 @@ pub fn run_tree(tree: &[TNode], k: usize, chooser_of: impl FnOnce(Arc<Mutex<Choi
         ),
     };
     let l = log.lock().unwrap().clone();
-    TRun { events: conv.events, result, found, outcome, stats, problems: conv.problems, log: l }
+    TRun { events: conv.events, result, found, outcome, stats, problems: conv.problems, log: l, failed: failed.load(std::sync::atomic::Ordering::SeqCst) }
 }
 
 pub fn g_ev(e: &Ev, node: &dyn Fn(&str) -> String, nodes: &dyn Fn(&str) -> String) -> String {
@@ -231,7 +238,7 @@ pub fn run(plan: Plan, shards: usize, outdir: &str, replay: Option<String>) {
             *hist.entry(String::from("with_waiting")).or_insert(0) += 1;
         }
         let meta = json!({"tree": tree.iter().map(j_tnode).collect::<Vec<_>>(), "k": k, "sched": kind, "spurious": sp,
-                          "choices": run.log.choices, "outcome": run.outcome, "result": run.result, "stats": run.stats,
+                          "choices": run.log.choices, "failed_nodes": run.failed, "outcome": run.outcome, "result": run.result, "stats": run.stats,
                           "problems": run.problems, "events": run.events.len()});
         cases.push((g_case(tree, k, &run), meta));
     };
